@@ -742,3 +742,109 @@ impl RefGrammar {
         out
     }
 }
+
+/// F-lalr2: all subsets of `S: {x,y} {A,B} {a,b,c}` (12 productions) with `A: z; B: z`, in source
+/// order and in reversed order (which state is created first matters to the minimiser).
+/// Tokens: x=0 y=1 z=2 a=3 b=4 c=5.
+pub fn family_lalr2() -> Vec<RefGrammar> {
+    let mut all = vec![];
+    for p in [0usize, 1] {
+        for n in [1usize, 2] {
+            for s in [3usize, 4, 5] {
+                all.push(vec![T(p), R(n), T(s)]);
+            }
+        }
+    }
+    let mut out = vec![];
+    for mask in 1u32..(1 << 12) {
+        let prods: Vec<Vec<Sym>> = (0..12).filter(|i| mask & (1 << i) != 0).map(|i| all[i].clone()).collect();
+        if prods.len() < 3 || prods.len() > 6 {
+            continue;
+        }
+        let uses_a = prods.iter().any(|p| p[1] == R(1));
+        let uses_b = prods.iter().any(|p| p[1] == R(2));
+        if !(uses_a && uses_b) {
+            continue;
+        }
+        // tokens must be numbered densely: renumber the ones in use
+        let mut used: Vec<usize> = vec![2];
+        for p in &prods {
+            for s in p {
+                if let T(t) = s {
+                    if !used.contains(t) {
+                        used.push(*t);
+                    }
+                }
+            }
+        }
+        used.sort();
+        let ren = |p: &Vec<Sym>| -> Vec<Sym> {
+            p.iter()
+                .map(|s| match s {
+                    T(t) => T(used.iter().position(|u| u == t).unwrap()),
+                    r => *r,
+                })
+                .collect()
+        };
+        let z = used.iter().position(|u| *u == 2).unwrap();
+        let ps: Vec<Vec<Sym>> = prods.iter().map(ren).collect();
+        let mut rev = ps.clone();
+        rev.reverse();
+        for order in [ps, rev] {
+            out.push(g(used.len(), vec![order, vec![vec![T(z)]], vec![vec![T(z)]]]));
+        }
+    }
+    out
+}
+
+/// F-ternary: operator skeletons with productions that contain two tokens, so that "the last
+/// token of the production" and "some token of the production" differ:
+/// `E: E p E q E | E p E q | p E q E | E p E | E q E | x` over tokens p=0 q=1 x=2.
+pub fn family_ternary() -> Vec<RefGrammar> {
+    let menu: Vec<Vec<Sym>> = vec![
+        vec![R(0), T(0), R(0), T(1), R(0)],
+        vec![R(0), T(0), R(0), T(1)],
+        vec![T(0), R(0), T(1), R(0)],
+        vec![R(0), T(1), R(0), T(0), R(0)],
+        vec![R(0), T(0), R(0)],
+        vec![R(0), T(1), R(0)],
+        vec![T(0), T(1), R(0)],
+        vec![R(0), T(0), T(1)],
+    ];
+    let mut out = vec![];
+    for mask in 1u32..(1 << menu.len()) {
+        let mut prods: Vec<Vec<Sym>> = (0..menu.len()).filter(|i| mask & (1 << i) != 0).map(|i| menu[i].clone()).collect();
+        if prods.len() > 3 {
+            continue;
+        }
+        // both operator tokens must occur
+        if !prods.iter().flatten().any(|s| *s == T(0)) || !prods.iter().flatten().any(|s| *s == T(1)) {
+            continue;
+        }
+        prods.push(vec![T(2)]);
+        out.push(g(3, vec![prods]));
+    }
+    out
+}
+
+/// More empty-production shapes for the span bookkeeping: an empty rule followed by a token
+/// inside a production that is itself followed by more input (so that a repair can insert the
+/// token at a later position than where the empty rule sits).
+pub fn family_empty2() -> Vec<RefGrammar> {
+    let mut out = vec![];
+    // S: 'a' A 'c'; A: B 'x'; B: ;          tokens a0 c1 x2
+    out.push(g(3, vec![vec![vec![T(0), R(1), T(1)]], vec![vec![R(2), T(2)]], vec![vec![]]]));
+    // S: 'a' A 'c'; A: B 'x' B; B: ;
+    out.push(g(3, vec![vec![vec![T(0), R(1), T(1)]], vec![vec![R(2), T(2), R(2)]], vec![vec![]]]));
+    // S: 'a' A 'c' | 'a' 'c' 'c'; A: B B 'x'; B: ;
+    out.push(g(3, vec![vec![vec![T(0), R(1), T(1)]], vec![vec![R(2), R(2), T(2)]], vec![vec![]]]));
+    // S: A 'c'; A: B 'x'; B: ;
+    out.push(g(3, vec![vec![vec![R(1), T(1)]], vec![vec![R(2), T(2)]], vec![vec![]]]));
+    // S: 'a' A 'c' A; A: B 'x'; B: | 'a' 'a';
+    out.push(g(3, vec![vec![vec![T(0), R(1), T(1), R(1)]], vec![vec![R(2), T(2)]], vec![vec![], vec![T(0), T(0)]]]));
+    // list of such: S: | S A 'c'; A: B 'x'; B: ;
+    out.push(g(3, vec![vec![vec![], vec![R(0), R(1), T(1)]], vec![vec![R(2), T(2)]], vec![vec![]]]));
+    // S: 'a' A 'c'; A: 'x' B; B: ;   (empty rule last, token first)
+    out.push(g(3, vec![vec![vec![T(0), R(1), T(1)]], vec![vec![T(2), R(2)]], vec![vec![]]]));
+    out
+}
